@@ -19,8 +19,8 @@ whose branches go on becomes a `let`-bound join point.
  * `Cron.add_block`, `remove_block`, `reload`:  `Except Exc …Locals`
  * `Cron._maintask`: `mtInit` = the statements before `while True:`, `mtStep` = ONE pass through its body:
        Res.next L w                      end of the body / `continue`
-       Res.sleep d k                     suspended in `await asyncio.sleep(d)`
-       Res.waitQueue t k                 suspended in `await asyncio.wait_for(self._queue.get(), t)`;
+       Res.sleep d w k                   suspended in `await asyncio.sleep(d)`
+       Res.waitQueue t w k               suspended in `await asyncio.wait_for(self._queue.get(), t)`;
                                          resumed with `true` (an item: the `else:` branch) or `false` (TimeoutError)
        Res.raise e L w
    `for step in range(n)` is a structural recursion over `List.range n` (`mtFor1`), its body `mtFor1Body` gets
@@ -928,8 +928,8 @@ structure MtPrims (σ T DT B : Type) where
 /-- how one pass through the body of `while True:` ends -/
 inductive Res (L σ : Type) where
   | next (l : L) (w : σ)                                -- end of the body or `continue`
-  | sleep (d : Rat) (k : σ → Res L σ)                   -- `await asyncio.sleep(d)`
-  | waitQueue (timeout : Rat) (k : Bool → σ → Res L σ)  -- `await asyncio.wait_for(self._queue.get(), timeout)`
+  | sleep (d : Rat) (w : σ) (k : σ → Res L σ)                   -- `await asyncio.sleep(d)` entered in world `w`
+  | waitQueue (timeout : Rat) (w : σ) (k : Bool → σ → Res L σ)  -- `await asyncio.wait_for(self._queue.get(), timeout)` entered in `w`
   | raise (e : MExc) (l : L) (w : σ)
 '''
 
@@ -1073,7 +1073,7 @@ def mt_stmt(fn, s, rest, k, ctx):
         if isinstance(c, ast.Call) and try_path(c.func) == 'asyncio.sleep' and len(c.args) == 1:
             pre, a, ty = fn.expr(c.args[0])
             a, _ = fn.to_rat(a, ty)
-            return pre + [f'.sleep {a} (fun w =>'] + ind(K()) + [')']
+            return pre + [f'.sleep {a} w (fun w =>'] + ind(K()) + [')']
         raise Untranslatable('await of something else than asyncio.sleep')
     # try: await asyncio.wait_for(self._queue.get(), X)  except asyncio.TimeoutError: …  else: …
     if isinstance(s, ast.Try):
@@ -1092,7 +1092,7 @@ def mt_stmt(fn, s, rest, k, ctx):
             kk = fn.join(K)
         else:
             kk = K
-        lines += [f'.waitQueue {a} (fun got_ w =>', '  if got_ then'] + ind(fn.stmts(s.orelse, kk, ctx), 4) + \
+        lines += [f'.waitQueue {a} w (fun got_ w =>', '  if got_ then'] + ind(fn.stmts(s.orelse, kk, ctx), 4) + \
             ['  else'] + ind(fn.stmts(s.handlers[0].body, kk, ctx), 4) + [')']
         return lines
     # reload.set()  and other Flag calls as statements
